@@ -504,7 +504,41 @@ def wallet_scenario(rnd):
         else:
             gen.steps.append(dict(op="bundle", label="m%d_%d" % (gen.h + 1, i), gt=True, gap=2, tag="bundle"))
             gen.h += 1
-    return dict(g=g, hb=100, keys=3, issuance=gen.issuance, node_key="k1", replica=True, steps=gen.steps, tag="wallet")
+    # (the producer refuses to bundle sooner than a key-dependent delay of up to 5 s after its parent: long heartbeat)
+    return dict(g=g, hb=3000, keys=3, issuance=gen.issuance, node_key="k1", replica=True, steps=gen.steps, tag="wallet")
+
+
+def nft_scenario(rnd):
+    """the node's wallet creates an NFT (bound slip, payload, bound slip); the chain then grows long enough for the
+    triple to be rebroadcast twice; in between the usual peer traffic"""
+    g = rnd.choice([3, 4])
+    gen = Gen(rnd, g, 3)
+    gen.node_key = "k1"
+    gen.issuance = [["k1", 400000], ["k1", 300000]] + [["k2", 50000] for _ in range(3 * g + 8)]
+    gen.outs = {"g%d" % i: (k, 1) for i, (k, a) in enumerate(gen.issuance)}
+    gen.snap = {"b1": (dict(gen.outs), 1, {})}
+    nxt = [2]
+    chainout = [None]
+
+    def peer_block(tag="good"):
+        h = gen.h + 1
+        # a chain of payments k2 -> k2 (a fresh genesis output would have left the window by now)
+        x = ("g%d" % nxt[0]) if not chainout[0] else chainout[0]
+        gen.ntx += 1
+        t = dict(id="t%d" % gen.ntx, signer="k2", ins=[x], outs=[["k2", 0]], fee=rnd.choice([0, 3, 500]), path=[])
+        chainout[0] = "t%d.0" % gen.ntx
+        gen.steps.append(dict(op="block", label="p%d" % h, gt=gen.gt_flag(h), txs=[t], tag=tag, gap=2))
+        gen.h = h
+    if rnd.random() < 0.5:
+        peer_block()
+    gen.steps.append(dict(op="nft_create", to=rnd.choice(["k1", "k3"]), tag="nft"))
+    gen.steps.append(dict(op="bundle", label="n%d" % (gen.h + 1), gt=True, gap=2, tag="bundle"))
+    gen.h += 1
+    for i in range(2 * (g + 1) + rnd.randint(1, 3)):
+        peer_block()
+        if rnd.random() < 0.15:
+            gen.steps.append(dict(op="restart", tag="clean"))
+    return dict(g=g, hb=3000, keys=3, issuance=gen.issuance, node_key="k1", replica=True, steps=gen.steps, tag="nft")
 
 
 def lottery_scenario(rnd, seed_no):
@@ -578,6 +612,8 @@ def scenarios(seed, n, long_p=0.3):
     out += first_block_scenarios(rnd)
     for i in range(max(4, n // 12)):
         out.append(wallet_scenario(rnd))
+    for i in range(max(3, n // 40)):
+        out.append(nft_scenario(rnd))
     for i in range(n - 2 * (n // 6)):
         g = rnd.choice([3, 3, 4, 6])
         big = rnd.random() < 0.1
